@@ -38,6 +38,7 @@ type sconn struct {
 	readErr   error    // injected read error
 	writeErr  error    // injected write error
 	blockW    bool     // peer stops reading: Write blocks until the write deadline, then times out
+	holdW     bool     // the peer is momentarily slow: Write blocks until the harness clears the flag (no deadline involved)
 	partialAt int      // >0: the partialAt-th Write accepts only partialN bytes and then reports a timeout
 	partialN  int
 	nwrites   int
@@ -107,6 +108,12 @@ func (c *sconn) Write(p []byte) (int, error) {
 	if vsched.Aborting() {
 		return 0, net.ErrClosed
 	}
+	if c.holdW && !c.closed {
+		vsched.PointOp("conn.write-held", 1000+c.id, func() bool { return writeReleased(c) })
+		if vsched.Aborting() {
+			return 0, net.ErrClosed
+		}
+	}
 	// the decision to block is taken when the call is granted (the peer may stop reading at any moment)
 	if c.blockW && !c.closed {
 		c.wexpired = false
@@ -145,7 +152,8 @@ func (c *sconn) Write(p []byte) (int, error) {
 	return len(p), nil
 }
 
-func markExpired(c *sconn) { c.wexpired = true }
+func markExpired(c *sconn)        { c.wexpired = true }
+func writeReleased(c *sconn) bool { return !c.holdW || c.closed }
 
 func (c *sconn) Close() error {
 	vsched.PointOp("conn.close", 1000+c.id, nil)
